@@ -10,6 +10,7 @@ import rsitems
 # (file, enclosing fn, iterated expression) -> why it cannot influence the output order
 COVERED = {
     ("src/themes.rs", "append_pattern_styles", "tb.classes"): "U-themeorder: proved to be sorted before use (C06.patterns.order_is_canonical)",
+    ("src/themes.rs", "append_pattern_styles", "classes"): "the local Vec collected from tb.classes and sorted before the loop (U-themeorder proves the order canonical)",
     ("src/themes.rs", "has_class", "self.classes"): "any(): boolean, order-insensitive",
     ("src/themes.rs", "has_element", "self.elements"): "any(): boolean, order-insensitive",
     ("src/reuse.rs", "generate_events", "reuse_element.get_attrs()"): "writes distinct existing keys of the instance element (set_attr on key = attr); `transform` is a single key: iterations commute",
@@ -38,19 +39,44 @@ def enclosing_fn(src, pos):
         return None
 
 
+def hash_names(repo, only_file=None):
+    """names that denote hash containers, collected from the sources themselves: struct fields /
+    let bindings / parameters whose declared type mentions HashMap or HashSet, bindings initialised
+    from HashMap::new / HashSet::new / a collect into one, and functions returning one (their calls)"""
+    names = set()
+    for f in sorted(os.listdir(os.path.join(repo, "src"))):
+        if not f.endswith(".rs"):
+            continue
+        text = open(os.path.join(repo, "src", f)).read()
+        cut = text.find("#[cfg(test)]")
+        text = text[:cut] if cut >= 0 else text
+        # functions returning a hash container are visible everywhere; variables / fields only in their file
+        local = (only_file is None or f == only_file)
+        for mm in (re.finditer(r"\b(?:let\s+(?:mut\s+)?)?(\w+)\s*:\s*&?(?:mut\s+)?(?:std::collections::)?Hash(?:Map|Set)\s*<", text) if local else []):
+            names.add(re.escape(mm.group(1)))
+        for mm in (re.finditer(r"\blet\s+(?:mut\s+)?(\w+)\s*(?::[^=;]*)?=\s*(?:std::collections::)?Hash(?:Map|Set)\s*::", text) if local else []):
+            names.add(re.escape(mm.group(1)))
+        for mm in re.finditer(r"\bfn\s+(\w+)\s*(?:<[^>]*>)?\s*\([^)]*\)\s*->\s*(?:&\s*)?(?:std::collections::)?Hash(?:Map|Set)\s*<", text):
+            names.add(r"[\w.]*\b%s\(\)" % re.escape(mm.group(1)))
+    names.discard("self")
+    return sorted(names)
+
+
 def scan(repo="/repo"):
     found, unknown = [], []
     for f in sorted(os.listdir(os.path.join(repo, "src"))):
         if not f.endswith(".rs"):
             continue
+        allnames = sorted(set(HASH_NAMES) | set(hash_names(repo, f)))
         rel = "src/" + f
         text = open(os.path.join(repo, rel)).read()
         src = rsitems.Src(text)
         # strip test modules
         cut = text.find("#[cfg(test)]")
         body_end = cut if cut >= 0 else len(text)
-        names = "|".join(n.replace(r"\.", r"\s*\.\s*") for n in HASH_NAMES)
-        pat = re.compile(r"(?:for\s+[^;{]*?\s+in\s+&?(?:mut\s+)?(%s)(?![\w.]))|(?:(%s)\s*\.\s*(?:iter|into_iter|keys|values|drain|iter_mut)\s*\()" % (names, names))
+        names = "|".join(n.replace(r"\.", r"\s*\.\s*") for n in allnames)
+        it = r"(?:iter|into_iter|keys|values|drain|iter_mut|into_keys|into_values)"
+        pat = re.compile(r"(?:for\s+[^;{]*?\s+in\s+&?(?:mut\s+)?(%s)(?:\s*\.\s*clone\(\))?(?![\w.(])|(?<![\w.])(%s)(?:\s*\.\s*clone\(\))?\s*\.\s*%s\s*\()" % (names, names, it))
         for mm in pat.finditer(text, 0, body_end):
             if not src.mask[mm.start()]:
                 continue
